@@ -69,7 +69,7 @@ theorem pairsOuter_onTime (cfg : Cfg) (clk : Clock) (stopAt : Option Nat)
     (hpass : ∀ cs it, OnTime stopAt clk it → OnTime stopAt clk (pass cs it).1) (fuel cs : Nat) (it : It)
     (h : OnTime stopAt clk it) : OnTime stopAt clk (pairsOuter cfg clk stopAt pass final fuel cs it) :=
   pairsOuter_induct cfg clk stopAt pass final (fun _ it => OnTime stopAt clk it) (OnTime stopAt clk)
-    (fun _ _ h => h) (fun cs it h _ => hpass cs it h) (fun cs it h => hpass cs it h)
+    (fun _ _ h => h) (fun cs it h _ => hpass cs it h) (fun cs it h _ => hpass cs it h)
     (fun cs it h _ _ _ _ => hpass cs it h) (fun cs it h _ _ => hpass cs it h) (fun cs it h _ _ => hpass cs it h)
     fuel cs it h
 
